@@ -600,6 +600,13 @@ def run_mode(case, mode, drv):
                     return Failure("oracle", f"{where}: emitter {em} feedback keys {sorted(e['add_info'])} vs "
                                    f"archive feedback keys {sorted(fb)}"), None, None
                 for key, v in e["add_info"].items():
+                    # the add feedback is documented as one value per solution ((batch_size,) arrays) in both add
+                    # modes: this is the form every emitter validates before it ranks
+                    if key in ("status", "value", "novelty", "local_competition") and \
+                            np.asarray(v).shape != (len(rows),):
+                        return Failure("oracle", f"{where}: emitter {em} received feedback '{key}' of shape "
+                                       f"{np.asarray(v).shape} for its {len(rows)} rows (add_mode={mode}); the "
+                                       f"archive's add feedback is one value per solution"), None, None
                     want = fb[key][rows[0]:rows[-1] + 1] if rows else fb[key][:0]
                     if np.asarray(v).shape != want.shape or not np.array_equal(np.asarray(v), want):
                         return Failure("oracle", f"{where}: emitter {em} feedback '{key}' = "
